@@ -106,7 +106,10 @@ class H2Peer:
         self.goaway_count = 0
         self.flow_violations: List[str] = []
         self.errors: List[str] = []
-        self.frames: List[tuple] = []  # (wire_offset_end, type, sid, flags, length)
+        self.frames: List[tuple] = []  # (wire_offset_end, type, sid, flags, length, time)
+        self.clock = None  # optional callable giving the simulated time (stamps frames)
+        self.reset_times: Dict[int, float] = {}
+        self.end_times: Dict[int, float] = {}
         self.pings: List[bytes] = []
         self.ping_acks: List[bytes] = []
         self.out = bytearray()  # bytes the peer wants to send (auto replies, uploads)
@@ -318,7 +321,13 @@ class H2Peer:
 
     def _on_frame(self, frame: hf.Frame, length: int) -> None:
         sid = frame.stream_id
-        self.frames.append((self.wire_offset, type(frame).__name__, sid, sorted(frame.flags), length))
+        now = self.clock() if self.clock is not None else None
+        self.frames.append((self.wire_offset, type(frame).__name__, sid, sorted(frame.flags), length, now))
+        if now is not None:
+            if isinstance(frame, hf.RstStreamFrame):
+                self.reset_times.setdefault(sid, now)
+            if "END_STREAM" in frame.flags:
+                self.end_times.setdefault(sid, now)
         if self._hdr_sid is not None and not isinstance(frame, hf.ContinuationFrame):
             self.errors.append("expected CONTINUATION")
         if isinstance(frame, hf.SettingsFrame):
